@@ -25,6 +25,7 @@ type Answer struct {
 	ErrAt    int           // Next returns Err instead of row ErrAt (0-based); -1 = never
 	Err      error         // the error for ErrAt
 	RowDelay time.Duration // sleep before every row
+	Cycle    int           // > 0: serve Rows cyclically until Cycle rows were delivered (a result set far larger than any limit)
 }
 
 // Handler answers a query. Returning an error fails the query itself.
@@ -44,6 +45,7 @@ type DB struct {
 	sqlDB   *sql.DB
 	Opened  int64 // rows objects opened
 	Closed  int64 // rows objects closed
+	Served  int64 // rows delivered by Next
 	GetDBs  int64 // IDBRegistry.GetDB calls
 	seq     int64
 }
@@ -141,11 +143,21 @@ func (r *rows) Next(dest []driver.Value) error {
 		}
 		return fmt.Errorf("fakesql: scripted mid-stream failure")
 	}
+	if r.a.Cycle > 0 && len(r.a.Rows) > 0 {
+		if r.i >= r.a.Cycle {
+			return io.EOF
+		}
+		copy(dest, r.a.Rows[r.i%len(r.a.Rows)])
+		r.i++
+		atomic.AddInt64(&r.d.Served, 1)
+		return nil
+	}
 	if r.i >= len(r.a.Rows) {
 		return io.EOF
 	}
 	copy(dest, r.a.Rows[r.i])
 	r.i++
+	atomic.AddInt64(&r.d.Served, 1)
 	return nil
 }
 
